@@ -9,9 +9,22 @@ result per job: {"obs": [["acc", mid, name] | ["rej", cls]], "final": [[mid, nam
                  "runs": [[gen, [V...]]], "exported": bool, "export_err": str|None}
 """
 import os, sys, json, enum, traceback
+from decimal import Decimal
 from typing import Optional, Union
 from common import main, exc_info
 import hdl21 as h
+from hdl21.prefix import Prefix, Prefixed
+from hdl21.external_module import ExternalModuleCall
+from hdl21.primitives import PrimitiveCall
+
+# number of referenced objects of the `ref` pool (see Universe.ref)
+NREF = 10
+
+
+def dec_tuple(d):
+    """(sign, coefficient as text, exponent) of a finite Decimal"""
+    sign, digits, exp = d.as_tuple()
+    return [sign, "".join(str(x) for x in digits) or "0", exp]
 
 
 # ------------------------------------------------------------------------------------------------
@@ -34,8 +47,11 @@ class Universe:
         for e in spec["table"]:
             self.table.append(dict(gen=e["gen"], params=None, spec=e))
 
-    # reference-valued parameters: a fixed pool of distinctly named objects
-    def ref(self, i):
+    # reference-valued parameters: a fixed pool of distinctly named objects.  0-3 and 8 are compared by identity;
+    # 4-7 and 9 are CALLS (PrimitiveCall / ExternalModuleCall), which compare by value: every variant of one index is a
+    # separately built object holding the same parameter value written differently
+    def ref(self, i, variant=0):
+        from hdl21.prefix import K, UNIT, m as MILLI
         if self.refs is None:
             m0 = h.Module(name="RefA"); m0.p = h.Port()
             m1 = h.Module(name="RefB"); m1.p = h.Port()
@@ -45,8 +61,47 @@ class Universe:
                 return h.Module()
 
             x = h.ExternalModule(name="RefExt", port_list=[h.Port(name="p")])
-            self.refs = [m0, m1, RefGen, x]
-        return self.refs[i % len(self.refs)]
+
+            @h.paramclass
+            class XP:
+                r = h.Param(dtype=h.Scalar, desc="r", default=1 * K)
+
+            self.xp = h.ExternalModule(name="RefExtP", port_list=[h.Port(name="p")], paramtype=XP)
+
+            @h.paramclass
+            class GP:
+                a = h.Param(dtype=int, desc="a", default=1)
+
+            @h.generator
+            def RefGenP(p: GP) -> h.Module:
+                mm = h.Module()
+                mm.p = h.Port()
+                return mm
+
+            # building this module must not be observed as a body run of the universe
+            self.refs = {0: m0, 1: m1, 2: RefGen, 3: x, 8: RefGenP(a=1)}
+        i = i % NREF
+        if i in self.refs:
+            return self.refs[i]
+        Mos, R = h.primitives.Mos, h.primitives.IdealResistor
+        spell = {
+            4: lambda: [Mos(w=2 * K), Mos(w=2000 * UNIT), Mos(w="2.000e3"), Mos(w=Prefixed.new(2000000, MILLI))],
+            5: lambda: [Mos(w=1 * K), Mos(w=1000), Mos(w=Decimal("1.0e3"))],
+            6: lambda: [self.xp(r=2 * K), self.xp(r=2000 * UNIT), self.xp(r=2000.0)],
+            7: lambda: [self.xp(r=3), self.xp(r="3.0"), self.xp(r=Prefixed.new(3000, MILLI))],
+            9: lambda: [R(r=2 * K), R(r=2000), R(r="2e3")],
+        }[i]()
+        return spell[variant % len(spell)]
+
+    def ref_index(self, x):
+        for i in (0, 1, 2, 3, 8):
+            if self.ref(i) is x:
+                return i
+        for i in (4, 5, 6, 7, 9):
+            y = self.ref(i)
+            if type(y) is type(x) and y == x:
+                return i
+        return None
 
     def pytype(self, d):
         t = d[0]
@@ -66,7 +121,13 @@ class Universe:
                 self.enums[n] = enum.Enum(f"E{n}", {f"M{i}": f"m{i}" for i in range(n)})
             return self.enums[n]
         if t == "ref":
-            return Union[h.Module, h.Generator, h.ExternalModule]
+            return Union[h.Module, h.Generator, h.ExternalModule, ExternalModuleCall, PrimitiveCall]
+        if t == "scalar":
+            return h.Scalar
+        if t == "pref":
+            return h.Prefixed
+        if t == "dec":
+            return Decimal
         if t == "rec":
             key = json.dumps(d)
             if key not in self.recs:
@@ -106,7 +167,19 @@ class Universe:
             member = list(cls)[v[1]] if v[1] < len(cls) else enum.Enum("Other", {"Z": "z"}).Z
             return member.value if (len(v) > 2 and v[2] == "value") else member
         if t == "r":
-            return self.ref(v[1])
+            return self.ref(v[1], v[2] if len(v) > 2 else 0)
+        if t == "P":        # Prefixed(number=Decimal(text), prefix): three equivalent constructions
+            num, pre = Decimal(v[1]), Prefix(v[2])
+            form = v[3] if len(v) > 3 else "new"
+            if form == "mul":
+                return num * pre
+            if form == "ctor":
+                return Prefixed(number=num, prefix=pre)
+            return Prefixed.new(num, pre)
+        if t == "D":
+            return Decimal(v[1])
+        if t == "L":
+            return h.Literal(v[1])
         if t == "R":
             while d[0] == "opt":
                 d = d[1]
@@ -147,9 +220,15 @@ class Universe:
         if t == "enum" and isinstance(x, enum.Enum):
             return ["e", list(type(x)).index(x)]
         if t == "ref":
-            for i in range(4):
-                if self.ref(i) is x:
-                    return ["r", i]
+            i = self.ref_index(x)
+            if i is not None:
+                return ["r", i]
+        if t in ("scalar", "pref") and type(x) is Prefixed and x.number.is_finite():
+            return ["Pw"] + dec_tuple(x.number) + [x.prefix.value]
+        if t == "scalar" and type(x) is h.Literal:
+            return ["L", x.text]
+        if t == "dec" and type(x) is Decimal and x.is_finite():
+            return ["Dw"] + dec_tuple(x)
         if t == "rec":
             return ["R", [self.encode(dd, getattr(x, f"r{i}")) for i, dd in enumerate(d[1])]]
         return ["?", repr(x)[:80]]
@@ -175,9 +254,18 @@ class Universe:
                     e["params"] = self.classes[gi](**self.kwargs(gi, e["spec"]["args"]))
                 except Exception:
                     e["params"] = False
-            if e["params"] is not False and e["params"] == params:
+            if e["params"] is not False and self.same(e["params"], params):
                 return e["spec"]
         return None
+
+    @staticmethod
+    def same(p, q):
+        # the driver's own table lookup: Prefixed.__eq__ raises on a Literal (a Scalar field may hold either) and
+        # PrimitiveCall / ExternalModuleCall.__eq__ raise on objects of another kind - such parameter sets are not equal
+        try:
+            return bool(p == q)
+        except (RuntimeError, AttributeError):
+            return False
 
     def generator(self, gi, g):
         cls = self.classes[gi]
@@ -287,7 +375,39 @@ def in_child(job):
     return json.loads(data)
 
 
+def run_values(cases):
+    """Model-validation stream: for (dtype, a, b) build P(x=a), P(x=b) and read back the held value of each (or the
+    rejection), P(x=a) == P(x=b) and hash equality."""
+    out = []
+    for c in cases:
+        uni = Universe(dict(univ=[dict(name="V", fields=[dict(name="x", dtype=c["dtype"], default=None)])], table=[]))
+        cls = uni.classes[0]
+        insts, held = [], []
+        for w in (c["a"], c["b"]):
+            try:
+                inst = cls(x=uni.value(c["dtype"], w))
+                insts.append(inst)
+                held.append(uni.encode(c["dtype"], inst.x))
+            except BaseException as e:
+                insts.append(None)
+                held.append(["rej", type(e).__name__])
+        eq = heq = None
+        if insts[0] is not None and insts[1] is not None:
+            try:
+                eq = bool(insts[0] == insts[1])
+            except BaseException as e:
+                eq = "raise:" + type(e).__name__
+            try:
+                heq = hash(insts[0]) == hash(insts[1])
+            except BaseException as e:
+                heq = "raise:" + type(e).__name__
+        out.append(dict(held=held, eq=eq, heq=heq))
+    return out
+
+
 def handler(p):
+    if "values" in p:
+        return dict(results=run_values(p["values"]))
     from hdl21.generator import Generator
     import hdl21.generators  # noqa: F401  (so that the built-in stream does not import inside the child)
     assert len(Generator.Cache.done) == 0 and len(Generator.Cache.pending) == 0
